@@ -117,7 +117,7 @@ CHECKS = {
         runs=[dict(check="c01", timeout_s=1200),
               # parsers / formatters / extraction / link + transport readers under the Miri interpreter (dependency unsafe code: xxhash)
               dict(check="c01", flavor="miri", tier="thorough", scale=0.00003, extra=["--direct-only"], timeout_s=300)],
-        required=["direct_fragments_parsed", "direct_objects_accepted", "direct_link_streams", "probe_link_status_ok", "probe_read_ok", "close_mode_session_ended_on_framing_error", "master_probe_read_ok", "master_probe_ok_chatter0", "master_probe_ok_chatter1", "master_probe_ok_chatter2", "master_probe_ok_chatter3", "master_close_mode_session_ended_on_framing_error"],
+        required=["probe_with_chatter", "direct_fragments_parsed", "direct_objects_accepted", "direct_link_streams", "probe_link_status_ok", "probe_read_ok", "close_mode_session_ended_on_framing_error", "master_probe_read_ok", "master_probe_ok_chatter0", "master_probe_ok_chatter1", "master_probe_ok_chatter2", "master_probe_ok_chatter3", "master_close_mode_session_ended_on_framing_error"],
         thorough_scale=25.0,
         abnormal_exit_is_violation=True,
         assumptions=HARNESS_TRUST,
@@ -189,7 +189,7 @@ CHECKS = {
         rule=("1-3 associations on one channel, 0-2 polls each with periods 300..2500 ms, keep-alive off/1500/4000 ms, user reads and writes submitted singly and in bursts at arbitrary virtual instants (many aligned with poll deadlines), poll demands, replies prompt / late / never, unsolicited, stale and link-layer noise; "
               "a reference schedule model is evaluated at every request written: Q1 FIFO per association and user requests ahead of polls/keep-alives, Q2 polls never before completion+period, Q3 least-recently-served association first, Q4 keep-alive only after silence and after due polls, Q5 one outstanding request, Q6 write instant == max(channel free, earliest eligibility) exactly and scheduler passes bounded by events, Q7 channel disabled for 0..1500 ms then enabled on a new connection: nothing written while disabled, the model holds again afterwards"),
         runs=[dict(check="c19", scale=3, timeout_s=900)],
-        required=["Q1_fifo_ok", "Q1_no_user_waiting_ok", "Q2_poll_not_early_ok", "Q3_turn_taken_in_order_ok", "Q4_keep_alive_after_silence_ok", "Q5_channel_free_ok", "Q6_wake_exact_ok", "Q6_woke_at_deadline_ok", "Q6_no_spin_ok", "Q7_silent_while_disabled_ok"],
+        required=["demand_only_polls", "Q1_fifo_ok", "Q1_no_user_waiting_ok", "Q2_poll_not_early_ok", "Q3_turn_taken_in_order_ok", "Q4_keep_alive_after_silence_ok", "Q5_channel_free_ok", "Q6_wake_exact_ok", "Q6_woke_at_deadline_ok", "Q6_no_spin_ok", "Q7_silent_while_disabled_ok"],
         thorough_scale=12.0,
         abnormal_exit_is_violation=True,
         assumptions=HARNESS_TRUST,
@@ -199,7 +199,7 @@ CHECKS = {
         rule=("part A: real master and real outstation joined by a relay with scripted one-way delays f, b (0 .. 90 000 ms), processing delay p (0 .. 65 535 ms, held honestly or not), master clock anywhere in 0 .. 2^48-1, three procedures, crossing unsolicited responses and stale wrong-sequence replies; the time handed to the outstation application is compared with the master's clock at that virtual instant; "
               "part B: real master against a scripted outstation (excess processing delay, unexpected objects at every step, NEED_TIME kept, IIN2 rejection, 48-bit overflow); part C: real outstation against a scripted master (g50v3 = recorded + elapsed exactly, rejected without record or on overflow, g50v1, g52v2)"),
         runs=[dict(check="c18", timeout_s=900)],
-        required=["C_sum_exactly_at_48_bit_limit_ok", "C_sub_millisecond_elapsed", "A_accuracy_within_bound_ok", "A_accuracy_ok_proc0", "A_accuracy_ok_proc1", "A_exact_when_symmetric_ok", "A_accuracy_ok_with_processing_delay", "A_accuracy_ok_delay_beyond_16_bits", "A_failed_as_demanded_ok", "B_failed_as_demanded_ok", "B_success_on_benign_script_ok", "C_recorded_plus_elapsed_ok", "C_write_without_record_rejected_ok", "C_overflow_rejected_ok"],
+        required=["B_replies_asking_for_confirmation", "C_sum_exactly_at_48_bit_limit_ok", "C_sub_millisecond_elapsed", "A_accuracy_within_bound_ok", "A_accuracy_ok_proc0", "A_accuracy_ok_proc1", "A_exact_when_symmetric_ok", "A_accuracy_ok_with_processing_delay", "A_accuracy_ok_delay_beyond_16_bits", "A_failed_as_demanded_ok", "B_failed_as_demanded_ok", "B_success_on_benign_script_ok", "C_recorded_plus_elapsed_ok", "C_write_without_record_rejected_ok", "C_overflow_rejected_ok"],
         thorough_scale=10.0,
         abnormal_exit_is_violation=True,
         assumptions=HARNESS_TRUST,
@@ -221,7 +221,7 @@ CHECKS = {
               "A2 every response and unsolicited fragment the real outstation writes for generated databases (all types/variations, boundary values) and requests; A3 device attributes (all seven value types, private and default sets, values at the integer width boundaries, strings up to 255 octets) defined in the real outstation and read one by one, as a whole set, as a variation list and written by a scripted master: object bytes against a hand-written encoding, the value handed to the master's handler, write verdicts, read-after-write, series termination; A4 analog dead-bands written by the real master (three variations, 8/16-bit indices), applied by the real outstation (application callbacks) and read back by the real master; P grammar-generated fragments x both zero-length-string options; plus 6 truncations / extensions / bit flips / octet substitutions of every captured fragment"),
         runs=[dict(check="c09", timeout_s=900),
               dict(check="c09", flavor="miri", tier="thorough", scale=0.0004, extra=["--direct-only"], timeout_s=300)],
-        required=["A2_relative_event_times_as_written", "A2_truncated_control_echo_checked", "A1_file_requests_checked", "A1_fragments_agree", "A1_read_request_as_asked", "A2_fragments_agree", "A2_objects_agree", "A2_measurements_agree", "P_fragments_agree", "P_objects_agree", "P_objects_rejected", "A1_mutated_objects_rejected", "A2_mutated_objects_rejected", "A2_mutated_fragments_agree", "A3_attribute_read_ok", "A3_attribute_delivered_ok", "A3_attribute_set_read_ok", "A3_variation_list_ok", "A3_attribute_write_accepted_ok", "A3_attribute_write_rejected_ok", "A3_attribute_after_write_ok", "A3_read_ok_code3", "A4_dead_band_write_ok", "A4_dead_band_read_ok", "A3_default_set_attribute_named_ok"],
+        required=["A1_open_file_request_as_asked", "A2_relative_event_times_as_written", "A2_truncated_control_echo_checked", "A1_file_requests_checked", "A1_fragments_agree", "A1_read_request_as_asked", "A2_fragments_agree", "A2_objects_agree", "A2_measurements_agree", "P_fragments_agree", "P_objects_agree", "P_objects_rejected", "A1_mutated_objects_rejected", "A2_mutated_objects_rejected", "A2_mutated_fragments_agree", "A3_attribute_read_ok", "A3_attribute_delivered_ok", "A3_attribute_set_read_ok", "A3_variation_list_ok", "A3_attribute_write_accepted_ok", "A3_attribute_write_rejected_ok", "A3_attribute_after_write_ok", "A3_read_ok_code3", "A4_dead_band_write_ok", "A4_dead_band_read_ok", "A3_default_set_attribute_named_ok"],
         thorough_scale=12.0,
         abnormal_exit_is_violation=True,
         assumptions=HARNESS_TRUST,
